@@ -131,6 +131,7 @@ type seqCase struct {
 	Prefix int             `json:"prefix"`
 	Reqs   []*refcodec.Msg `json:"reqs"`
 	Probe  bool            `json:"probe_fid_table"`
+	Life   bool            `json:"check_lifecycle"`
 }
 
 var c04Prefixes = [][]*refcodec.Msg{
@@ -158,7 +159,7 @@ type seqStats struct {
 }
 
 func runSeqCase(c seqCase, st *seqStats) *fail {
-	w, f := newWorld(worldOpts{native: c.Native})
+	w, f := newWorld(worldOpts{native: c.Native, life: c.Life})
 	if f != nil {
 		return f
 	}
